@@ -86,6 +86,15 @@ func (e *Engine) calleeKey(cc *ssa.CallCommon) string {
 func (e *Engine) callEffect(cc *ssa.CallCommon) effect {
 	key := e.calleeKey(cc)
 	if key == "" && !cc.IsInvoke() {
+		// call through a func-typed parameter with a paramfunc contract
+		if p, ok := cc.Value.(*ssa.Parameter); ok && p.Parent() != nil {
+			if pk := "param:" + funcKey(p.Parent()) + "." + p.Name(); e.cs.Funcs[pk] != nil {
+				key = pk
+				if t := e.cs.Funcs[pk].SameAs; t != "" && e.cs.Funcs[t] != nil {
+					key = t
+				}
+			}
+		}
 		// call through a captured func variable with a paramfunc contract
 		if u, ok := cc.Value.(*ssa.UnOp); ok {
 			if fv, ok2 := u.X.(*ssa.FreeVar); ok2 && fv.Parent() != nil {
